@@ -41,7 +41,11 @@
 (* Pixel values: a colour index is packed with the colour masks ci =       *)
 (* <<rpos, rsize, gpos, gsize, bpos, bsize>>.  Only bits covered by a mask *)
 (* are constrained (bit 15 of a 15-bpp pixel and the X byte of an XRGB      *)
-(* pixel are don't-care bits of a painted pixel).                          *)
+(* pixel are don't-care bits of a painted pixel).  A field narrower than 8  *)
+(* bits holds the top bits of the 8-bit component; in a field wider than 8  *)
+(* bits the component is left-justified and the low bits are don't-care.    *)
+(* A grid without cells (framebuffer narrower than a glyph, or no room for  *)
+(* a text line below the logo) admits no change by Write or Fill.            *)
 (*                                                                         *)
 (* Named deviations (DESIGN 2.3): a rule-shaped finding that is recorded   *)
 (* rather than repaired is a member of Devs; the strict rule reports it    *)
@@ -66,18 +70,21 @@ IsFb(g) == g.cons = "fb"
 GridCols(e) == e.w \div e.gw
 GridRows(e) == (e.h - e.offY) \div e.gh
 
-\* bits of (val << pos) that land in byte k (k = 0 is the least significant byte of the pixel)
+\* bits of (val << pos) that land in byte k (k = 0 is the least significant byte of the pixel); val < 2^16
 CompByte(val, pos, k) ==
   LET lo == 8 * k IN
   IF pos >= lo + 8 THEN 0
   ELSE IF pos >= lo THEN (val * Pow2(pos - lo)) % 256
-  ELSE IF lo - pos >= 8 THEN 0
+  ELSE IF lo - pos >= 16 THEN 0
   ELSE (val \div Pow2(lo - pos)) % 256
-Scale(v, size) == IF size >= 8 THEN v ELSE v \div Pow2(8 - size)               \* v >> (8 - size)
+\* an 8-bit colour component in a field of `size` bits: the top bits of the component for narrow fields
+\* (v >> (8 - size)); left-justified in a field wider than 8 bits (the low size-8 bits are not constrained)
+Scale(v, size) == IF size > 8 THEN v * Pow2(size - 8) ELSE v \div Pow2(8 - size)
+Field(size)    == IF size > 8 THEN 255 * Pow2(size - 8) ELSE Pow2(size) - 1      \* the constrained bits of a field
 PackByte(ci, rgb, k) == (CompByte(Scale(rgb[1], ci[2]), ci[1], k) | CompByte(Scale(rgb[2], ci[4]), ci[3], k))
                         | CompByte(Scale(rgb[3], ci[6]), ci[5], k)
-MaskByte(ci, k) == (CompByte(Pow2(ci[2]) - 1, ci[1], k) | CompByte(Pow2(ci[4]) - 1, ci[3], k))
-                   | CompByte(Pow2(ci[6]) - 1, ci[5], k)
+MaskByte(ci, k) == (CompByte(Field(ci[2]), ci[1], k) | CompByte(Field(ci[4]), ci[3], k))
+                   | CompByte(Field(ci[6]), ci[5], k)
 
 \* the geometry record the monitor keeps (derived values computed once per case); the bulky constants of a
 \* case (font data fd, palette pal) stay in its init event, which the caller passes along as `big`
@@ -179,7 +186,8 @@ Relax(g) == IF IsFb(g) /\ g.Bpp = 4 /\ "Pack32HighByte" \in Devs
 FillCheck(g, old, got, e) ==
   LET X == ClampOrigin(e.x, g.cols)  Y == ClampOrigin(e.y, g.rows)
       Wd == ClipExtent(e.w, g.cols - X + 1)  Ht == ClipExtent(e.h, g.rows - Y + 1)
-  IN IF Wd = 0 \/ Ht = 0 THEN NoChange(g, e.d, "Fill of an empty rectangle changed the buffer")
+  IN IF g.cols = 0 \/ g.rows = 0 THEN NoChange(g, e.d, "Fill on a grid without cells changed the buffer")
+     ELSE IF Wd = 0 \/ Ht = 0 THEN NoChange(g, e.d, "Fill of an empty rectangle changed the buffer")
   ELSE
   LET r0 == g.offY + (Y - 1) * g.gh   r1 == r0 + Ht * g.gh - 1
       c0 == (X - 1) * g.gw * g.Bpp    c1 == c0 + Wd * g.gw * g.Bpp - 1
